@@ -62,7 +62,7 @@ type spec struct {
 	Scheme  int
 	Exits   []exitV
 	Imps    []impV
-	Perturb bool // also run every single-field perturbation of the built certificate
+	Perturb int // 0: pipeline only; 1: also every single-field perturbation of the built certificate (height-0 execution); 2: in both executions
 }
 
 var giBoundary = []uint32{0, 1, 255, 256, 0xFFFFFFFF}
